@@ -111,6 +111,11 @@ func init() {
 	add("mtenth", mustParse("-0.1"))
 	third := new(big.Float).SetPrec(512).Quo(big.NewFloat(1).SetPrec(512), big.NewFloat(3).SetPrec(512))
 	add("third", third)
+	// numbers that need more than 53 bits: just below a whole number (ordering proxies in Universe.tla)
+	add("almost1", mustParse("0.99999999999999999999"))
+	add("almost3", mustParse("2.99999999999999999999"))
+	add("malmost1", mustParse("-0.99999999999999999999"))
+	add("malmost3", mustParse("-2.99999999999999999999"))
 	add("i16max", pow2(15, "-1"))
 	add("i16maxp", pow2(15, ""))
 	add("u16max", pow2(16, "-1"))
